@@ -21,19 +21,14 @@ pub struct Config {
     pub tx_weights: [u32; 4],
     /// chain-sync agency modelled (S6 of the server model)
     pub agency: bool,
+    /// shadow executions only (never judged, see `observe_without_restart` in main.rs): a node
+    /// whose import returned an error keeps running instead of being restarted
+    #[serde(default)]
+    pub shadow_no_restart_after_failure: bool,
     // --- harness-side neutralisation of known-finding triggers (true = neutralised) ---
-    /// the harness removes the rows of a node when it is rolled back below its first stored block
-    pub neut_below_first: bool,
     /// the root offered for signing is not judged at a partial beacon whose block range is
     /// already complete on the node
     pub neut_sign_depth: bool,
-    /// a node whose last import failed is restarted before its next import
-    pub neut_restart_after_failure: bool,
-    /// import targets are clamped to the tip of the chain at the time of the call
-    pub clamp_targets: bool,
-    /// a fork during an import is not applied when its common ancestor is the scan's start point
-    #[serde(default)]
-    pub neut_back_to_scan_start: bool,
     /// import(t) with t <= highest stored block on a node whose stored blocks were rolled back is
     /// not judged against the canonical chain (the importer does not consult the chain then)
     #[serde(default = "yes")]
@@ -136,8 +131,6 @@ impl World {
         // one extra connection slot for the fresh reference node
         let mut st = ServerState::new(cfg.first_number, cfg.first_slot, cfg.tx_weights, n + 1);
         st.agency = cfg.agency;
-        st.neutralise_below_first = cfg.neut_below_first;
-        st.neutralise_back_to_scan_start = cfg.neut_back_to_scan_start;
         st.max_fork_depth = cfg.prune_min_keep.map(|k| k.saturating_sub(14));
         st.max_blocks = MAX_BLOCKS;
         let server: Server = Arc::new(Mutex::new(st));
@@ -319,9 +312,8 @@ impl World {
                 .unwrap();
                 return Err(viol(&clause, format!("node {n} after import({target}) with highest stored block {h}: {detail}")));
             }
-            // roots: at least those of a fresh import up to `target`, at most those of the depth reached
-            let depth = h.max(self.nodes[n].tmax.unwrap_or(0)).max(target);
-            let upper = oracle::expected(&chain, depth, p_obs);
+            // roots: at least those of a fresh import up to `target`, at most those of the highest stored block
+            let upper = oracle::expected(&chain, h, p_obs);
             let lower = oracle::expected(&chain, target, p_obs);
             for (got, up, lo, what) in [
                 (&after.roots, &upper.roots, &lower.roots, "noop-range-roots-differ"),
@@ -367,15 +359,9 @@ impl World {
         fault: &Option<Fault>,
         mid_fork: &Option<MidFork>,
     ) -> Result<Option<String>, Viol> {
-        if self.cfg.neut_restart_after_failure && self.nodes[n].last_import_failed {
-            self.restart(n);
-            self.hit("neutralised_restart_after_failed_import");
-        }
         let tip = self.tip();
         let mut target = target;
-        if self.cfg.clamp_targets {
-            target = target.min(tip.unwrap_or(0));
-        } else if tip.is_none_or(|t| target > t) {
+        if tip.is_none_or(|t| target > t) {
             self.hit("probe_target_above_tip");
         }
         // a signable builder is only asked where the model has a root to compare with
@@ -467,9 +453,6 @@ impl World {
         if stats_after.mid_forks_back_to_scan_start > stats_before.mid_forks_back_to_scan_start {
             self.hit("probe_fork_during_import_back_to_scan_start");
         }
-        if stats_after.mid_forks_neutralised > stats_before.mid_forks_neutralised {
-            self.hit("neutralised_fork_during_import_back_to_scan_start");
-        }
         if mid_fired {
             self.hit("probe_fork_during_import");
             // a fork in the middle of the import affects every node like any fork (the importing
@@ -483,12 +466,9 @@ impl World {
             self.hit("probe_rollback_delivered_to_nonempty_store");
         }
         if stats_after.rollback_below_first_stored > stats_before.rollback_below_first_stored {
+            // everything the node stores is above the roll-back point and must go away; the chain is
+            // re-imported from that point
             self.hit("probe_rollback_below_first_stored_block");
-        }
-        if stats_after.rollback_below_first_neutralised > stats_before.rollback_below_first_neutralised {
-            self.hit("neutralised_rollback_below_first_stored_block");
-            // everything is re-imported from the roll-back point: pruning starts over
-            self.nodes[n].floor_allowed = 0;
         }
         if stats_after.intersect_not_found > stats_before.intersect_not_found {
             self.hit("probe_intersect_not_found");
@@ -528,7 +508,15 @@ impl World {
                     ));
                 }
                 if !(db_fired && crash) {
-                    self.nodes[n].last_import_failed = true;
+                    // An import that fails and is retried by the same process is outside the
+                    // property's histories: the failure is a process stop, the node is restarted
+                    // (only the durable state survives). Shadow executions keep the process.
+                    if self.cfg.shadow_no_restart_after_failure {
+                        self.nodes[n].last_import_failed = true;
+                    } else {
+                        self.restart(n);
+                        self.hit("sim_restarts_after_failed_import");
+                    }
                 }
                 Ok(None)
             }
@@ -930,11 +918,8 @@ pub fn gen_config(rng: &mut Rng) -> (Config, GenParams) {
         first_slot: if rng.chance(0.25) { 0 } else { rng.range(1, 60) },
         tx_weights,
         agency: !fault_free && rng.chance(0.25),
-        neut_below_first: rng.chance(0.88),
+        shadow_no_restart_after_failure: false,
         neut_sign_depth: rng.chance(0.88),
-        neut_restart_after_failure: rng.chance(0.85),
-        clamp_targets: rng.chance(0.88),
-        neut_back_to_scan_start: rng.chance(0.88),
         neut_noop_on_stale: rng.chance(0.9),
         neut_prune_before_legacy: rng.chance(0.85),
         prune_min_keep,
@@ -947,11 +932,7 @@ pub fn gen_config(rng: &mut Rng) -> (Config, GenParams) {
                 "agency=1" => cfg.agency = true,
                 "agency=0" => cfg.agency = false,
                 "neut_all=1" => {
-                    cfg.neut_below_first = true;
                     cfg.neut_sign_depth = true;
-                    cfg.neut_restart_after_failure = true;
-                    cfg.clamp_targets = true;
-                    cfg.neut_back_to_scan_start = true;
                     cfg.neut_noop_on_stale = true;
                     cfg.neut_prune_before_legacy = true;
                     for n in cfg.nodes.iter_mut() {
@@ -959,11 +940,7 @@ pub fn gen_config(rng: &mut Rng) -> (Config, GenParams) {
                     }
                 }
                 "neut_all=0" => {
-                    cfg.neut_below_first = false;
                     cfg.neut_sign_depth = false;
-                    cfg.neut_restart_after_failure = false;
-                    cfg.clamp_targets = false;
-                    cfg.neut_back_to_scan_start = false;
                     cfg.neut_noop_on_stale = false;
                     cfg.neut_prune_before_legacy = false;
                 }
